@@ -164,6 +164,70 @@ def scenario(api, loss, phase, T, seed):
                 pass
 
 
+MULTI = [("send", 3), ("sendall", 3), ("recv", 2), ("accept", 2), ("recv_exit_status", 2)]
+
+
+def multi_scenario(api, n, loss, T):
+    """n threads blocked in the same call on the same channel/transport; the connection is lost;
+    every one of them must return.  Returns (number returned, n, detail)."""
+    tc = ts = None
+    try:
+        tc, ts, sc, ss, srv = lib_net.make_pair()
+        server_side = api == "accept"
+        target, tsock, peer = (ts, ss, tc) if server_side else (tc, sc, ts)
+        chan = None
+        if not server_side:
+            chan = tc.open_session(timeout=15)
+            schan = ts.accept(5)
+            if schan is None:
+                raise RuntimeError("server did not accept the channel")
+        if api in ("send", "sendall"):
+            with chan.lock:
+                chan.out_window_size = 0
+        done = [None] * n
+
+        def runner(k):
+            try:
+                if api == "send":
+                    chan.send(b"x" * 10)
+                elif api == "sendall":
+                    chan.sendall(b"x" * 10)
+                elif api == "recv":
+                    chan.recv(10)
+                elif api == "recv_exit_status":
+                    chan.recv_exit_status()
+                elif api == "accept":
+                    ts.accept(None)
+                done[k] = "returned"
+            except BaseException as e:  # noqa
+                done[k] = "raised:" + type(e).__name__
+
+        ths = [threading.Thread(target=runner, args=(k,), daemon=True) for k in range(n)]
+        for t in ths:
+            t.start()
+        # all of them must be parked (nothing can complete these calls)
+        lib_net.wait_until(lambda: any(d is not None for d in done), 0.3)
+        if any(d is not None for d in done):
+            return None, n, "a call finished before the loss: %r" % done
+        if loss == "eof":
+            tsock.eof()
+        elif loss == "local_close":
+            target.close()
+        elif loss == "disconnect":
+            peer._send_message(_disconnect_msg())
+        end = time.monotonic() + T
+        for t in ths:
+            t.join(max(0.0, end - time.monotonic()))
+        return sum(1 for d in done if d is not None), n, repr(done)
+    finally:
+        for t in (tc, ts):
+            try:
+                if t is not None:
+                    t.close()
+            except Exception:
+                pass
+
+
 PROXY_CHILD = r'''
 import sys, time, threading, os
 sys.path.insert(0, sys.argv[1])
@@ -280,6 +344,46 @@ def run(ctx):
 
         raise InfraError("too many inconclusive scenarios: %d of %d" % (inconclusive, len(jobs)))
 
+    # ---- several callers blocked on the same object (notify_all must reach every one)
+    mreqs, mkeys = [], []
+    for api, n in MULTI:
+        for lm in ("remote", "local"):
+            sch = ",".join("c%d" % i for i in range(n)) + "," + ",".join(["l"] * 3)
+            mreqs.append("mrun %s %s all %d %s" % (ROW[api], lm, n, sch))
+            mkeys.append((api, n, lm))
+    mrep = ctx.driver("C13", mreqs)
+    mpred = {}
+    if mrep is not None:
+        for k, r in zip(mkeys, mrep):
+            mpred[k] = ("fin=1" in r) and r.endswith("prompt=" + "1" * k[1])
+    mjobs = [(a, n, l) for a, n in MULTI for l in ("eof", "disconnect", "local_close")]
+
+    def mdo(job):
+        a, n, l = job
+        try:
+            return job, multi_scenario(a, n, l, T)
+        except Exception as e:
+            return job, (None, n, "setup: %r %s" % (e, exc_site(e)))
+
+    with ThreadPoolExecutor(max_workers=6) as ex:
+        mres = list(ex.map(mdo, mjobs))
+    for (a, n, l), (got, n_, detail) in mres:
+        if got is None:
+            ctx.dist("multi:inconclusive")
+            continue
+        ctx.case(("multi", a, n, l), True)
+        ctx.dist("multi:%s" % ("all-returned" if got == n else "stranded"))
+        lm = "local" if l == "local_close" else "remote"
+        want = mpred.get((a, n, lm))
+        if want is not None and want != (got == n):
+            ctx.disagree("all-callers-return", {"api": a, "callers": n, "loss": l},
+                         "all return" if want else "some stranded", "%d of %d returned" % (got, n))
+        if got != n:
+            ctx.fail("blocked:%s-x%d:%s" % (a, n, "local_close" if l == "local_close" else "remote-loss"),
+                     {"api": a, "callers": n, "loss": l}, "%d of %d callers returned: %s" % (got, n, detail))
+    if len(ctx.samples) < 8:
+        ctx.sample({"multi_caller_cases": len(mjobs)})
+
     # ---- ProxyCommand at EOF (model: proxyRecv fixed) vs real child processes
     pm = ctx.driver("C13", ["proxy fixed 10 0 3 4", "proxy fixed 10 0 - 2"])
     r1 = proxy_case("recv", T)
@@ -303,7 +407,9 @@ META = {
               "before, during and after the loss): each of the 12 wait-loop rows read off transport.py/channel.py/"
               "buffered_pipe.py/auth_handler.py returns within two caller steps once the shutdown path has finished "
               "(closed reachable set, decide +kernel, lifted to schedules of any length by induction); `done` is "
-              "absorbing; ProxyCommand.recv returns at EOF; witness theorems for the three repaired hangs (old "
+              "absorbing; the same for ANY NUMBER of callers blocked on the same object (projection onto the one-caller "
+              "system: with notify_all callers do not interact; witness that notify() strands the second sender); "
+              "ProxyCommand.recv returns at EOF; witness theorems for the three repaired hangs (old "
               "accept(), old ensure_session(), old ProxyCommand.recv). The rows are tied to the code behaviourally: "
               "13 APIs x 4 loss modes x 2 phases on real Transports under a watchdog, compared with the model's "
               "prediction, every run."),
